@@ -1357,7 +1357,7 @@ def _state_terms_mapped(run: GameRun, atom_map) -> Optional[Dict[Tuple[int, int]
     return out
 
 
-def run_rate_model(prog, roles, sizes, levels, *, tau_arg: bool, limit_arg: Optional[bool], limit_model: Optional[bool]) -> GameRun:
+def run_rate_model(prog, roles, sizes, levels, *, tau_arg: bool, limit_arg: Optional[bool], limit_model: Optional[bool], tau_kind: str = "float") -> GameRun:
     """rate on an explicit game with the options given per call or left to the model (tau atom: g.tau per call, model.tau on the model)."""
     w = World(prog, roles, Box())
     I = w.I
@@ -1373,7 +1373,7 @@ def run_rate_model(prog, roles, sizes, levels, *, tau_arg: bool, limit_arg: Opti
     game_, players = build_game(w, sizes)
     kwargs: Dict[str, Any] = {"ranks": build_values(w, levels, list(range(len(sizes))))}
     if tau_arg:
-        kwargs["tau"] = Num(kinds=frozenset({"float"}), sym=("param", "g.tau"))
+        kwargs["tau"] = Num(kinds=frozenset({tau_kind}), sym=("param", "g.tau"))
     if limit_arg is not None:
         kwargs["limit_sigma"] = Bool(bool(limit_arg), frozenset(), None)
     I.events.clear()
@@ -1394,10 +1394,10 @@ def c15_job(job) -> List[Dict[str, Any]]:
     ren = _rename_atoms({"model.tau": "g.tau"})
     for sizes in [(1, 1), (2, 1), (1, 2, 1)]:
         for lv in weak_orderings(len(sizes)):
-            for b in (False, True):
-                desc = f"rate(tau=t, limit_sigma={b}) == Model(tau=t, limit_sigma={b}).rate(): team sizes {sizes}, {describe(lv)}"
+            for b, kind in ((False, "float"), (True, "float"), (False, "int")):
+                desc = f"rate(tau=t, limit_sigma={b}) == Model(tau=t, limit_sigma={b}).rate(): team sizes {sizes}, {describe(lv)}" + (" (t an int)" if kind == "int" else "")
                 try:
-                    ra = run_rate_model(prog, roles, sizes, lv, tau_arg=True, limit_arg=b, limit_model=(not b))
+                    ra = run_rate_model(prog, roles, sizes, lv, tau_arg=True, limit_arg=b, limit_model=(not b), tau_kind=kind)
                     rb = run_rate_model(prog, roles, sizes, lv, tau_arg=False, limit_arg=None, limit_model=b)
                     bad = ra.ok() or rb.ok()
                 except Exception as e:  # noqa: BLE001
@@ -1409,7 +1409,7 @@ def c15_job(job) -> List[Dict[str, Any]]:
                 for who in ra.players:
                     for name in ("mu", "sigma"):
                         va, vb = ra.field(who, name), rb.field(who, name)
-                        pa = to_poly(va.sym, ren) if isinstance(va, Num) and va.sym is not None else None
+                        pa = to_poly(va.sym) if isinstance(va, Num) and va.sym is not None else None  # per-call run: the model's own tau must not appear at all
                         pb = to_poly(vb.sym, ren) if isinstance(vb, Num) and vb.sym is not None else None
                         if pa is None or pb is None:
                             if name == "sigma" and b and (pa is None) == (pb is None):
